@@ -7,7 +7,7 @@
    by the extracted monitor on the engine's answers (stop injected at every poll index of small searches). *)
 From Coq Require Import NArith ZArith List Bool String.
 From JV Require Import Gen.Consts Model.Chess Model.Eval Model.TT Model.Search Model.SearchChess Model.Monitors
-     Proofs.SearchBalance Proofs.SearchOutputs Proofs.UciProofs.
+     Proofs.SearchBalance Proofs.SearchOutputs Proofs.UciProofs Proofs.SearchPV Proofs.MoveGenProofs Props.C12.
 Import ListNotations.
 
 Theorem C03_exactly_one_bestmove : forall pollp stop_at bypass g depth t rt ri,
@@ -31,6 +31,27 @@ Theorem C03_uci_syntax : forall m, (mfrom m < 64)%N -> (mto m < 64)%N -> In (mpr
   uci_wf (to_uci m) = true.
 Proof. intros m A B C. exact (proj1 (uci_wellformed m A B C)). Qed.
 
+(* Whenever some generated move passes the legality test, the (single) bestmove of every search -- any depth, TT, history, poll
+   schedule, stop point -- is one of the moves the engine treats as legal: it is generated and accepted by BOTH legality paths. *)
+Theorem C03_bestmove_legal : forall pollp stop_at bypass g depth t rt ri,
+  legal_moves g <> [] ->
+  match chess_search pollp stop_at bypass g depth t rt ri with
+  | SDone r _ _ => forall m, In (OBest m) r -> In m (legal_moves g)
+  | SFuel => True
+  end.
+Proof.
+  intros pollp stop_at bypass g depth t rt ri NE.
+  pose proof (C12_pv_legal pollp stop_at bypass g depth t rt ri) as H.
+  destruct (chess_search pollp stop_at bypass g depth t rt ri) as [r e s|]; [|exact I].
+  intros m Hin. rewrite Forall_forall in H. specialize (H _ Hin). cbn in H.
+  unfold legal_moves, legal_values in *.
+  destruct H as [[H1 [g' H2]]|[H|H]].
+  - rewrite legality_paths_agree. apply filter_In. split; [exact H1|]. unfold made. unfold c_make in H2.
+    destruct (make_search_move g m); [discriminate|reflexivity|discriminate].
+  - exact H.
+  - contradiction.
+Qed.
+
 Definition C03_pv_case : Prop := forall pollp stop_at bypass g depth t hist,
   Abs.wf g = true -> keyok_b g = true -> spec_has_legal g = true ->
   match chess_search pollp stop_at bypass g depth t (app hist (repeat 0%N (1000 - List.length hist))) (List.length hist) with
@@ -41,3 +62,4 @@ Definition C03_pv_case : Prop := forall pollp stop_at bypass g depth t hist,
 Print Assumptions C03_exactly_one_bestmove.
 Print Assumptions C03_fallback_legal.
 Print Assumptions C03_uci_syntax.
+Print Assumptions C03_bestmove_legal.
